@@ -194,6 +194,20 @@ pub struct RecBm {
     id: usize,
 }
 impl BlockMode for RecBm {
+    fn obj_id(&self) -> usize {
+        self.id
+    }
+    fn as_any(&self) -> &dyn std::any::Any {
+        self.inner.as_any()
+    }
+    fn clone_from_obj(&mut self, src: &dyn BlockMode) -> bool {
+        tick();
+        let r = self.inner.clone_from_obj(src);
+        if recording() {
+            push(Op { id: self.id, new_id: 0, method: "clone_from".into(), args: vec![src.obj_id().to_string()], inp: vec![], out_pre: vec![], ret: format!("{r}"), out_post: vec![] });
+        }
+        r
+    }
     fn one(&mut self, k: Kind, inp: &[u8], out: &mut [u8]) {
         rec_call!(self, "one", [k.s()], inp, out, self.inner.one(k, inp, out), unit_s)
     }
@@ -285,6 +299,20 @@ pub struct RecCore {
     id: usize,
 }
 impl Core for RecCore {
+    fn obj_id(&self) -> usize {
+        self.id
+    }
+    fn as_any(&self) -> &dyn std::any::Any {
+        self.inner.as_any()
+    }
+    fn clone_from_obj(&mut self, src: &dyn Core) -> bool {
+        tick();
+        let r = self.inner.clone_from_obj(src);
+        if recording() {
+            push(Op { id: self.id, new_id: 0, method: "clone_from".into(), args: vec![src.obj_id().to_string()], inp: vec![], out_pre: vec![], ret: format!("{r}"), out_post: vec![] });
+        }
+        r
+    }
     fn remaining_blocks(&self) -> Option<usize> {
         tick();
         let v = self.inner.remaining_blocks();
@@ -384,6 +412,20 @@ pub struct RecStream {
     id: usize,
 }
 impl Stream for RecStream {
+    fn obj_id(&self) -> usize {
+        self.id
+    }
+    fn as_any(&self) -> &dyn std::any::Any {
+        self.inner.as_any()
+    }
+    fn clone_from_obj(&mut self, src: &dyn Stream) -> bool {
+        tick();
+        let r = self.inner.clone_from_obj(src);
+        if recording() {
+            push(Op { id: self.id, new_id: 0, method: "clone_from".into(), args: vec![src.obj_id().to_string()], inp: vec![], out_pre: vec![], ret: format!("{r}"), out_post: vec![] });
+        }
+        r
+    }
     fn apply(&mut self, k: Kind, inp: &[u8], out: &mut [u8]) -> R {
         rec_call!(self, "apply", [k.s()], inp, out, self.inner.apply(k, inp, out), rs)
     }
@@ -472,6 +514,20 @@ pub struct RecBuf {
     id: usize,
 }
 impl BufCfb for RecBuf {
+    fn obj_id(&self) -> usize {
+        self.id
+    }
+    fn as_any(&self) -> &dyn std::any::Any {
+        self.inner.as_any()
+    }
+    fn clone_from_obj(&mut self, src: &dyn BufCfb) -> bool {
+        tick();
+        let r = self.inner.clone_from_obj(src);
+        if recording() {
+            push(Op { id: self.id, new_id: 0, method: "clone_from".into(), args: vec![src.obj_id().to_string()], inp: vec![], out_pre: vec![], ret: format!("{r}"), out_post: vec![] });
+        }
+        r
+    }
     fn process(&mut self, data: &mut [u8]) {
         let e: [u8; 0] = [];
         rec_call!(self, "process", [], e, data, self.inner.process(data), unit_s)
@@ -662,6 +718,24 @@ pub fn replay(reg: &Registry, ops: &[Op]) -> Result<Vec<Op>, String> {
                 Err(()) => "CtorErr".into(),
             };
             o2.out_post = out;
+            out_ops.push(o2);
+            continue;
+        }
+        if op.method == "clone_from" {
+            let src_id: usize = a(0)?.parse().map_err(|_| "bad source id")?;
+            if src_id == op.id || src_id >= objs.len() || op.id >= objs.len() {
+                return Err("clone_from: bad object ids".into());
+            }
+            let mut dst = std::mem::replace(&mut objs[op.id], Obj::Gone);
+            let ok = match (&mut dst, &objs[src_id]) {
+                (Obj::Bm(d), Obj::Bm(s)) => d.clone_from_obj(s.as_ref()),
+                (Obj::Core(d), Obj::Core(s)) => d.clone_from_obj(s.as_ref()),
+                (Obj::Stream(d), Obj::Stream(s)) => d.clone_from_obj(s.as_ref()),
+                (Obj::Buf(d), Obj::Buf(s)) => d.clone_from_obj(s.as_ref()),
+                _ => false,
+            };
+            objs[op.id] = dst;
+            o2.ret = format!("{ok}");
             out_ops.push(o2);
             continue;
         }
